@@ -595,12 +595,19 @@ func (p *Parser) parseInfixExpression(left ast.Expression) ast.Expression {
 	p.nextToken()
 	expression.Right = p.parseExpression(precedence)
 
-	// hack
-	if expression.Operator == "." {
-		if expression.Right != nil && expression.Right.String() != "" {
-			name := expression.Right.String()
-			expression.Right = &ast.StringLiteral{Token: token.Token{Type: token.STRING, Literal: name}, Value: name}
+	// hack: "a.b" is an index-operation with the name as its index.
+	//
+	// Only the text of the operand survives, so it must be a plain
+	// name: anything else would be thrown away without being looked at.
+	if expression.Operator == "." && expression.Right != nil {
+		ident, ok := expression.Right.(*ast.Identifier)
+		if !ok {
+			msg := fmt.Sprintf("expected a field-name after '.', got %s around %s", expression.Right.String(), p.curToken.Position())
+			p.errors = append(p.errors, msg)
+			return nil
 		}
+		name := ident.String()
+		expression.Right = &ast.StringLiteral{Token: token.Token{Type: token.STRING, Literal: name}, Value: name}
 	}
 
 	// If there was an error parsing the second operand
